@@ -4,6 +4,7 @@
 #   1. patch applies, 2. repository suite still 795/795, 3. demo fails with / passes without the change,
 #   4. each named check reports VIOLATION (exit 1).  Everything is removed afterwards.
 patch="$1"; demo="$2"; shift 2
+export VERIF_CAP_S="${VERIF_CAP_S:-7200}"   # a loaded machine must not turn a capped (unfinished) run into a "missed"
 wt=/tmp/eval-wt-$$; out=/tmp/eval-out-$$
 git -C /repo worktree add -q --detach "$wt" HEAD || exit 2
 trap 'git -C /repo worktree remove --force "$wt" >/dev/null 2>&1; rm -rf "$out" "$wt"' EXIT
